@@ -44,6 +44,10 @@ pub struct Chan {
     pub read_bytes: u64,
     pub writes: u64,
     pub on_read: Option<Hook>,
+    /// the library has seen the end of this connection: a read returned EOF / an error, or a write returned an error
+    pub seen_eof: bool,
+    pub seen_rerr: bool,
+    pub seen_werr: bool,
 }
 
 #[derive(Clone, Default)]
@@ -82,10 +86,12 @@ impl AsyncRead for R {
         if c.segs.is_empty() {
             if let Some(k) = c.rerr.take() {
                 c.eof = true;
+                c.seen_rerr = true;
                 bump();
                 return Poll::Ready(Err(k.into()));
             }
             if c.eof {
+                c.seen_eof = true;
                 bump();
                 return Poll::Ready(Ok(0));
             }
@@ -110,6 +116,7 @@ impl AsyncWrite for W {
         let mut c = self.0 .0.lock().unwrap();
         c.writes += 1;
         if let Some(k) = c.broken {
+            c.seen_werr = true;
             bump();
             return Poll::Ready(Err(k.into()));
         }
@@ -239,6 +246,10 @@ impl H {
     }
     pub fn on_next_read(&self, h: Hook) {
         self.0.lock().unwrap().on_read = Some(h);
+    }
+    pub fn seen(&self) -> (bool, bool, bool) {
+        let c = self.0.lock().unwrap();
+        (c.seen_eof, c.seen_rerr, c.seen_werr)
     }
     pub fn has_read_waker(&self) -> bool {
         self.0.lock().unwrap().rwaker.is_some()
